@@ -358,6 +358,7 @@ func main() {
 	cli.Main(&cli.Property{
 		ID: "C14", Level: "model_checking", Scenarios: scenarios(), Parts: []*cli.Part{part},
 		QuickBound: 2, ThoroughBound: 3, Cache: true, QuickSecs: 50, ThoroughSecs: 900,
+		RaceHB: &cli.RaceHB{QuickBound: 1, ThoroughBound: 2},
 		Rule:        "H: every sequential history (breadth-first to the fixpoint of the model state space, plus every history unmerged to a small depth) of input writes and structural changes on an EvictionState (7 slots, jumps included), a SortedSet (3 elements x 3 weights, Add/Delete/weight change also of removed elements), a DerivedSet over two sources with SubtractReactive (Add/Delete/Replace/InheritFrom/unsubscribe) and a Counter with a WaitGroup, compared with the defining function after every step. S: every interleaving with at most b preemptions (delay bounding for the reactive-set scenarios, whose executions have thousands of steps) of writers on different inputs and structural changes (add/remove source or element, subscribe/unsubscribe) on real derived reactive values; at quiescence (all writers returned, nothing enabled) the derived value is compared with its defining function of the inputs' current values; deadlock = violation; distinct = distinct (outcome, observation log)",
 		Assumptions: []string{"convergence is judged at quiescence only (transient staleness while writers run is allowed by the statement)"},
 		NotReached:  []string{"DerivedVariable4, Clock, LogUpdates helpers", "more than 3 concurrent writers"},
